@@ -10,10 +10,24 @@ from .common import Driver, DriverUnavailable
 
 RULE = ("per module: random configuration x 0..8 heterogeneous particles placed at/near surface, bed and band "
         "limits; draws recorded from a seeded generator with ~15% of entries replaced by tails/boundary values "
-        "(u=0, 1-2^-53, +-8 sigma); single updates and 2..6-step histories. A case is non-trivial when it has "
-        ">=1 particle; distinct by (module, configuration, particle arrays).")
+        "(u=0, 1-2^-53, +-8 sigma); single updates and 2..6-step histories (thorough: up to 20 steps) in which the "
+        "tracker moves suspended particles +-0.3 cells over the sloping bed between updates and particles are removed / "
+        "released (real State). Configurations: keys at their default value left out (~30%), integer dt (~30%), "
+        "integer / equal band limits (larvae 30/30, eel hi=lo), sedimentation `vertical_mixing: 0` and taucrit as a "
+        "{method: constant} mapping. chemicals: histories with land_collision reposition (stuck particles re-seeded in "
+        "their cell, sloping bed) and coastal_diffusion (stub coastal mask), judged against the bed at the new "
+        "position; mine: states without an `active` variable (taucrit >= 1000); egg: neutrally buoyant eggs with a "
+        "forced draw landing exactly on 200.0 and on the last double below; saithe: eggs anywhere in 0..200 m "
+        "(incl. 0, 1e-9, 0.5 m) judged against the surface, larvae hatched in the previous update outside [30,60], "
+        "extra_spreading on (30%, no model request), saithe histories; sandeel: all life stages (eggs hatching and "
+        "larvae metamorphosing during the update), every particle judged; lunar eel with the moon up (40%). "
+        "A case is non-trivial when it has >=1 particle; distinct by (module, configuration, particle arrays).")
 ASSUMPTIONS = ["stub grid/forcing fields are analytic (linear bathymetry, linear/step diffusivity profiles)",
-               "egg/lice/larvae depths compared with relative tolerance 1e-9 / 1e-6 (libm pow/exp and float32 narrowing)"]
+               "egg/lice/larvae depths compared with relative tolerance 1e-9 / 1e-6 (libm pow/exp and float32 narrowing)",
+               "which chemicals particles the collision handler re-seeds is taken from the handler's own criterion "
+               "(remembered == current position / coastal mask); its correctness is C11's subject",
+               "saithe with extra_spreading has no model request (larva.update cannot express the horizontal part): "
+               "implementation-side oracle only"]
 
 EXACT = {"chemicals", "sedimentation", "mine", "sandeel", "lunar_eel", "vps", "shrimp"}
 TOL = {"egg": 1e-9, "salmon_lice": 1e-9, "larvae": 2e-6, "saithe": 2e-6}
@@ -30,11 +44,23 @@ def band_oracle(ctx, name, case, res):
     for i in range(n):
         if name == "chemicals":
             Hb = case["env"].depth(b["x"][i], b["y"][i])
-            if not (0 <= b["z"][i] <= Hb) or not res["meta"]["precond"][i]:
+            pre = bool(res["meta"]["precond"][i])
+            if not pre and "precond_actual" in res["meta"] and res["meta"]["precond_actual"][i]:
+                # the step actually drawn is smaller than the local depth although the largest possible one is not
+                pre = True
+                ctx.branch("chemicals.precondition_met_by_actual_step")
+            if not (0 <= b["z"][i] <= Hb) or not pre:
                 ctx.branch("chemicals.precondition_not_met"); continue
             Ha = res["meta"]["H_after"][i]
             ctx.oracle(0 <= z[i], "C05.chemicals.above_surface", site, "Z'=%r" % z[i], cs(i))
-            if case["horz"] is None:
+            reseeded = "stuck" in res["meta"] and bool(res["meta"]["stuck"][i])
+            if case["horz"] is None and reseeded:
+                # the collision handler moved the particle inside its cell: the local bed is the one at the new position
+                ctx.oracle(z[i] <= Ha, "C05.chemicals.below_bed_after_reposition", site,
+                           "land_collision=%s moved (X,Y) %r -> %r: Z'=%r H'=%r (H before %r)"
+                           % (case["land"], (float(b["x"][i]), float(b["y"][i])), (float(a["x"][i]), float(a["y"][i])),
+                              float(z[i]), float(Ha), float(Hb)), cs(i))
+            elif case["horz"] is None:
                 ctx.oracle(z[i] <= Ha, "C05.chemicals.below_bed", site, "Z'=%r H=%r" % (z[i], Ha), cs(i))
             else:
                 ctx.oracle(z[i] <= Ha, "C05.chemicals.below_bed_after_horzdiff", site, "Z'=%r H'=%r" % (z[i], Ha), cs(i))
@@ -42,16 +68,19 @@ def band_oracle(ctx, name, case, res):
             H = res["meta"]["H"][i]
             if not (0 <= b["z"][i] <= H):
                 continue
+            # the bed clause needs no precondition: `bury` puts every suspended particle that is below the bed onto
+            # it and settled particles do not move; only the surface clause depends on the size of the step
+            bed = lambda: ctx.oracle(z[i] <= H, "C05.%s.below_bed" % name, site, "Z'=%r H=%r" % (z[i], H), cs(i))
             if name == "sedimentation":
                 mixing = case["mixing"]
                 if mixing is not None and not (isinstance(mixing, dict) and mixing["method"] == "bounded_linear"):
                     v = mixing["value"] if isinstance(mixing, dict) else mixing
                     d = np.sqrt(2 * v) * (res["xi"][i] * np.sqrt(case["dt"]))
                     if abs(b["z"][i] + d) > 2 * H:
-                        ctx.branch("sed.precondition_not_met"); continue
+                        ctx.branch("sed.precondition_not_met"); bed(); continue
             else:
                 if case["vadv"] and (b["sink"][i] + case["w"] < 0):
-                    ctx.branch("mine.precondition_not_met"); continue
+                    ctx.branch("mine.precondition_not_met"); bed(); continue
             ctx.oracle(0 <= z[i], "C05.%s.above_surface" % name, site, "Z'=%r" % z[i], cs(i))
             ctx.oracle(z[i] <= H, "C05.%s.below_bed" % name, site, "Z'=%r H=%r" % (z[i], H), cs(i))
         elif name == "egg":
@@ -61,12 +90,19 @@ def band_oracle(ctx, name, case, res):
         elif name in ("larvae", "saithe"):
             lo, hi = float(case["sp"]["min_depth"]), float(case["sp"]["max_depth"])
             if name == "saithe" and res["meta"]["is_egg"][i]:
+                # saithe eggs have no [min,max] band, but like every particle they are "never above the sea surface"
+                if b["z"][i] >= 0:
+                    ctx.oracle(z[i] >= 0, "C05.saithe.egg_above_surface", site,
+                               "egg (age %r <= 60) Z=%r -> Z'=%r" % (float(b["age"][i]), float(b["z"][i]), float(z[i])), cs(i))
                 continue
             ctx.oracle(lo <= z[i] <= hi, "C05.%s.band" % name, site, "Z'=%r not in [%r,%r]" % (z[i], lo, hi), cs(i))
         elif name == "sandeel":
-            if not res["mask_active"][i]:
-                continue
             lim = min(case["maxd"], res["meta"]["H"][i])
+            if not res["mask_active"][i]:
+                # resting particle (egg, settled juvenile): it starts inside the band by construction and must still be there
+                if 0 <= b["z"][i] <= lim:
+                    ctx.oracle(0 <= z[i] <= lim, "C05.sandeel.band_resting", site, "Z=%r -> Z'=%r lim=%r" % (b["z"][i], z[i], lim), cs(i))
+                continue
             ctx.oracle(0 <= z[i] <= lim, "C05.sandeel.band", site, "Z'=%r lim=%r" % (z[i], lim), cs(i))
         elif name == "lunar_eel":
             ctx.oracle(case["lo"] <= z[i] <= case["hi"], "C05.lunar_eel.band", site, "Z'=%r" % z[i], cs(i))
@@ -104,7 +140,7 @@ def compare(ctx, name, case, res, keys=("z",)):
 
 
 KEYS = {"chemicals": ("x", "y", "z", "age", "alive"), "sedimentation": ("z", "active", "alive", "age", "sink"),
-        "mine": ("z", "active", "alive", "age"), "egg": ("z", "age"), "salmon_lice": ("z", "age", "days", "super", "alive"),
+        "mine": ("z", "active", "alive", "age", "sink"), "egg": ("z", "age"), "salmon_lice": ("z", "age", "days", "super", "alive"),
         "larvae": ("z", "age", "weight"), "saithe": ("z", "age", "weight"), "sandeel": ("z",), "lunar_eel": ("z",),
         "shrimp": ("z", "stage", "age"), "vps": ("z", "age", "alive")}
 
@@ -121,15 +157,153 @@ def refresh_case(name, case, res):
     return c
 
 
-def run(ctx, modules=None, oracle=band_oracle, keys=KEYS):
+def _per_particle(case, n):
+    return [k for k, v in case.items() if isinstance(v, np.ndarray) and v.ndim == 1 and v.shape[0] == n]
+
+
+def between_steps(ctx, name, case, state):
+    """What the rest of LADiM does between two IBM calls, as far as the band is concerned: the tracker moves
+    suspended particles horizontally (here +-0.3 cells over the sloping stub bed; a particle carried over shallower
+    water is put back inside the band, which is the property's premise for the next update), dead / out-of-area
+    particles are removed and new ones are released (here: a copy of an existing particle with a new pid)."""
+    n = len(case["x"])
+    if name in ("chemicals", "sedimentation", "mine", "sandeel") and n and ctx.rng.random() < 0.7:
+        env = case["env"]
+        X = state["X"]; Y = state["Y"]; Z = state["Z"]
+        mobile = np.ones(n, bool) if (name == "chemicals" or "active" not in state) else (np.asarray(state["active"]) != 0)
+        moved = False
+        for i in range(n):
+            if mobile[i] and ctx.rng.random() < 0.5:
+                X[i] = min(19.0, max(2.0, X[i] + ctx.rng.uniform(-0.3, 0.3)))
+                lim = float(env.depth(X[i], Y[i]))
+                if name == "sandeel":
+                    lim = min(lim, case["maxd"])
+                if Z[i] > lim:
+                    Z[i] = lim
+                moved = True
+        if moved:
+            ctx.branch("%s.moved_between_steps" % name)
+    if hasattr(state, "remove") and hasattr(state, "append") and hasattr(state, "_data") and n:
+        r = ctx.rng.random()
+        if r < 0.15 and n >= 2:
+            j = ctx.rng.randrange(n)
+            keep = np.ones(n, bool); keep[j] = False
+            state.remove(~keep)
+            case = dict(case)
+            for k in _per_particle(case, n):
+                case[k] = case[k][keep].copy()
+            ctx.branch("%s.particle_removed" % name)
+        elif r < 0.30:
+            j = ctx.rng.randrange(n)
+            state.append({k: v[j:j + 1].copy() for k, v in state._data.items() if k not in ("pid", "alive")})
+            case = dict(case)
+            for k in _per_particle(case, n):
+                case[k] = np.concatenate([case[k], case[k][j:j + 1]])
+            ctx.branch("%s.particle_added" % name)
+    return refresh_case(name, case, dict(state=state))
+
+
+def tag(ctx, name, case, res):
+    """evidence that the input classes of RULE are reached"""
+    n = res["n"]
+    if case.get("omit_defaults") and (name in ("chemicals", "mine") or (name == "vps" and case["maxd"] == 2.0)
+                                      or (name == "salmon_lice" and case["D"] == 1e-3)
+                                      or (name == "larvae" and (case["k"] == 0.2 or case["D"] == 0.0))
+                                      or (name == "saithe" and case.get("spread"))):
+        ctx.branch("%s.config_defaults_omitted" % name)
+    if case.get("int_dt") and ibmrun.cfg_dt(case) is not case["dt"]:
+        ctx.branch("%s.integer_dt" % name)
+    if name == "chemicals":
+        if case["land"] == "coastal_diffusion":
+            ctx.branch("chemicals.coastal_diffusion")
+        k = int(np.sum(res["meta"].get("stuck", np.zeros(0, bool))))
+        if k:
+            ctx.branch("chemicals.reseeded_particles", k)
+    elif name == "sedimentation":
+        m = case["mixing"]
+        if m is not None and not isinstance(m, dict) and m == 0 or (isinstance(m, dict) and m.get("value", 1) == 0):
+            ctx.branch("sedimentation.vertical_mixing_zero")
+        if case.get("taucrit_dict") and case["taucrit"] is not None:
+            ctx.branch("sedimentation.taucrit_mapping")
+    elif name == "mine":
+        if case.get("no_active"):
+            ctx.branch("mine.no_active_variable")
+    elif name == "egg":
+        if case.get("force_normal") is not None and n:
+            a = res["after"]["z"]; b = res["before"]["z"]
+            ctx.branch("egg.exact_cap_case")
+            ctx.branch("egg.landed_on_200_put_back", int(np.sum((a == 199.0) & (b != 199.0))))
+            ctx.branch("egg.landed_one_ulp_below_200", int(np.sum(a == np.nextafter(200.0, 0.0))))
+    elif name in ("larvae", "saithe"):
+        if float(case["sp"]["min_depth"]) == float(case["sp"]["max_depth"]):
+            ctx.branch("larvae.single_depth_band")
+        if name == "saithe" and n:
+            egg = res["meta"]["is_egg"]; z = res["before"]["z"]
+            ctx.branch("saithe.egg_within_5m_of_surface", int(np.sum(egg & (z < 5))))
+            ctx.branch("saithe.hatchling_outside_band", int(np.sum(~egg & ((z < 30) | (z > 60)))))
+            if case.get("spread"):
+                ctx.branch("saithe.extra_spreading")
+    elif name == "sandeel" and n:
+        bef = res["before"]["active"] != 0; now = res["mask_active"]
+        ctx.branch("sandeel.hatched_this_update", int(np.sum(now & ~bef)))
+        ctx.branch("sandeel.drifting_larva", int(np.sum((res["before"]["stage"] >= 1) & (res["before"]["stage"] < 2))))
+        ctx.branch("sandeel.metamorphosed_this_update", int(np.sum(bef & (res["after"]["active"] == 0))))
+    elif name == "lunar_eel":
+        if case.get("moon"):
+            ctx.branch("lunar_eel.moon_up")
+        if case["lo"] == case["hi"]:
+            ctx.branch("lunar_eel.single_depth_band")
+        if case.get("int_limits"):
+            ctx.branch("lunar_eel.integer_limits")
+
+
+# opt-in input classes of the shared generators (drawn from the check's own generator)
+GEN_KW = {"egg": lambda rng: dict(exact_cap=rng.random() < 0.3)}
+
+
+def run(ctx, modules=None, oracle=band_oracle, keys=KEYS, extras=None, gens=None, hist_extra=(), between=None):
+    """`extras`: the input classes that only C05's own oracle can judge (collision handling of chemicals over a
+    sloping bed, mine without an `active` variable, tracker moves / removals / releases between the steps of a
+    history).  Default: on when the oracle is C05's band oracle, off for the other properties that share this runner.
+    `gens` (optional): {module: generator(rng, n=None, **kw)} replacing the shared generator of a module for this
+    caller (a property adds its own input classes by post-processing the shared generator's case);
+    `hist_extra` (optional): modules that get histories in addition to the standard list;
+    `between` (optional): callable(ctx, name, case, state) -> case applied after every step of a history (after the
+    tracker move / removal / release of `extras`): a property changes the forcing between the steps with it."""
     modules = modules or list(ibmrun.MODULES)
+    gens = gens or {}
+    extras = (oracle is band_oracle) if extras is None else extras
     ncases = ctx.n(60, 1500)
     nhist = ctx.n(8, 150)
     drv = Driver()
     use_drv = drv.available
     pending = []
+
+    def history(name, runner, case, h, steps, label="hist"):
+        ibm = None; state = None
+        for s in range(steps):
+            res = runner(case, ctx.sub_seed(), drv if use_drv else None, ibmrun.tail_injector(ctx.rng, 0.1),
+                         ibm=ibm, state=state)
+            ibm, state = res["ibm"], res["state"]
+            if hasattr(state, "timestep"):
+                state.timestep = state.timestep + 1
+            ctx.case(key=(name, label, h, s, repr(ibmrun.case_summary(case))), nontrivial=True)
+            ctx.branch("%s.history_step" % name)
+            tag(ctx, name, case, res)
+            oracle(ctx, name, case, res)
+            pending.append((name, case, res))
+            case = refresh_case(name, case, res)
+            if extras:
+                case = between_steps(ctx, name, case, state)
+                if len(case["x"]) == 0:
+                    break
+            if between is not None:
+                case = between(ctx, name, case, state)
+
     for name in modules:
-        gen, runner = ibmrun.MODULES[name]
+        gen0, runner = ibmrun.MODULES[name]
+        gen0 = gens.get(name, gen0)
+        gen = (lambda rng, n=None, _g=gen0, _k=GEN_KW[name]: _g(rng, n=n, **_k(rng))) if name in GEN_KW else gen0
         for c in range(ncases):
             case = gen(ctx.rng)
             inj = ibmrun.tail_injector(ctx.rng) if ctx.rng.random() < 0.6 else None
@@ -139,27 +313,52 @@ def run(ctx, modules=None, oracle=band_oracle, keys=KEYS):
                      sample=dict(module=name, n=n, dt=case["dt"]) if c == 0 else None)
             ctx.size(name, n)
             ctx.branch("%s.single" % name)
+            tag(ctx, name, case, res)
             oracle(ctx, name, case, res)
             pending.append((name, case, res))
         # histories
-        if name in ("chemicals", "sedimentation", "mine", "egg", "sandeel", "shrimp", "salmon_lice", "larvae"):
+        if name in ("chemicals", "sedimentation", "mine", "egg", "sandeel", "shrimp", "salmon_lice", "larvae", "saithe") \
+                or name in hist_extra:
             for h in range(nhist):
                 case = gen(ctx.rng, n=ctx.rng.randrange(1, 7))
                 if name in ("chemicals", "mine"):
                     case["land"] = "freeze"     # collision handling across steps is C11's subject
-                ibm = None; state = None
                 steps = ctx.rng.randrange(2, 7)
-                for s in range(steps):
-                    res = runner(case, ctx.sub_seed(), drv if use_drv else None, ibmrun.tail_injector(ctx.rng, 0.1),
-                                 ibm=ibm, state=state)
-                    ibm, state = res["ibm"], res["state"]
-                    if hasattr(state, "timestep"):
-                        state.timestep = state.timestep + 1
-                    ctx.case(key=(name, "hist", h, s, repr(ibmrun.case_summary(case))), nontrivial=True)
-                    ctx.branch("%s.history_step" % name)
-                    oracle(ctx, name, case, res)
-                    pending.append((name, case, res))
-                    case = refresh_case(name, case, res)
+                if ctx.tier == "thorough" and ctx.rng.random() < 0.2:
+                    steps = ctx.rng.randrange(7, 21)
+                    ctx.branch("%s.long_history" % name)
+                history(name, runner, case, h, steps)
+        if extras and name == "chemicals":
+            # collision handling moves particles inside their cell BEFORE the vertical steps: the bed that counts is
+            # the one at the new position.  `reposition`: under the real State the remembered arrays are the state's
+            # arrays, so from the second update on every particle is re-seeded; `coastal_diffusion`: stub coastal mask.
+            for h in range(ctx.n(50, 500)):
+                quiet = ctx.rng.random() < 0.35       # no vertical process at all after the handler: nothing re-checks the bed
+                case = ibmrun.chem_case(ctx.rng, n=ctx.rng.randrange(1, 7), horz=False if quiet else None,
+                                        mix=0 if quiet else None,
+                                        land=ctx.rng.choice(["reposition", "coastal_diffusion"]))
+                if quiet:
+                    case["vertadv"] = False
+                    ctx.branch("chemicals.collision_without_vertical_process")
+                env = case["env"]
+                if env.hx == 0.0 and ctx.rng.random() < 0.7:
+                    env.hx = env.h0 / 64                      # sloping bed (depth stays positive on the stub grid)
+                    case["z"] = np.minimum(case["z"], env.depth(case["x"], case["y"]))
+                history(name, runner, case, h, ctx.rng.randrange(2, 5), label="collision")
+                ctx.branch("chemicals.collision_history")
+        if extras and name == "mine":
+            for c in range(ctx.n(25, 400)):
+                case = ibmrun.mine_case(ctx.rng, no_active=True)
+                res = runner(case, ctx.sub_seed(), drv if use_drv else None, ibmrun.tail_injector(ctx.rng))
+                ctx.case(key=(name, "no_active", repr(ibmrun.case_summary(case))), nontrivial=res["n"] > 0)
+                ctx.branch("mine.single")
+                tag(ctx, name, case, res)
+                oracle(ctx, name, case, res)
+                pending.append((name, case, res))
+            for h in range(ctx.n(4, 60)):
+                case = ibmrun.mine_case(ctx.rng, n=ctx.rng.randrange(1, 7), no_active=True)
+                case["land"] = "freeze"
+                history(name, runner, case, h, ctx.rng.randrange(2, 5), label="no_active_hist")
     if use_drv:
         replies = drv.run()
         for name, case, res in pending:
